@@ -61,6 +61,8 @@ class Script(fakenet.BaseServer):
 
     def on_connect(self, ep):
         self.buf[ep.id] = b''
+        self.addr = getattr(self, 'addr', {})
+        self.addr[ep.id] = ep.address
 
     def on_data(self, ep, data):
         self.buf[ep.id] = self.buf.get(ep.id, b'') + data
@@ -304,6 +306,11 @@ def run_script(sc, start_text=None, referer_text=None):
         loc = step.get('loc', 'missing')
         ev.append({'e': 'recv', 'status': step.get('status', 0), 'loc': loc if isinstance(loc, str) else 'url',
                    'setcookie': bool(step.get('setcookie'))})
+    # bytes that never formed a complete header block are a (malformed) request too
+    for epid, rest in sorted(server.buf.items()):
+        if rest and not rest.startswith(b'CONNECT '):
+            cu = client_urls[len(server.requests)] if len(server.requests) < len(client_urls) else None
+            ev.append(project(server.addr[epid], rest, cu, proxy))
     if kind == 'ok':
         outcome = 'ok'
     elif kind == 'hang':
